@@ -16,9 +16,23 @@ class ClassModel:
         self.name = name
         self.fields = dict(fields)          # field -> Ty
         self.real = real                    # "module:Class" of the real class (for replay)
-        self.invariants = list(invariants)  # [(label, expr over `self`)]
+        # Object invariants [(label, expr over `self`)]. They may mention only the object's own
+        # fields (checked), are proved as a postcondition of every contracted method of the class
+        # and required of `self` at its entry; for any *other* receiver they are assumed (visible-
+        # state semantics), which is sound because fields they mention cannot be written from
+        # outside the class (an `inv-frame` obligation on every such write).
+        self.invariants = list(invariants)
+        # Invariants that are assumed everywhere and never proved: listed in the trusted base.
+        self.assumed = []
         self.props = {}                     # property name -> expr over self (real @property, inlined spec)
         CLASSES[name] = self
+
+    def inv_fields(self):
+        import re
+        fs = set()
+        for _, e in self.invariants:
+            fs.update(f for f in re.findall(r"self\.([A-Za-z_][A-Za-z0-9_]*)", e) if f in self.fields)
+        return fs
 
 
 class LoopSpec:
@@ -88,6 +102,7 @@ class Contract:
         self.closure_of = None
         self.ignore_calls = set()
         self.result_name = "result"
+        self.no_class_inv = False   # True: the method may be entered/left with the object invariant broken
 
     # ---- declaration API -------------------------------------------------
     def self_(self, cls, name="self"):
@@ -97,6 +112,11 @@ class Contract:
 
     def param(self, name, ty, default=None):
         self.params.append((name, ty))
+        return self
+
+    def local(self, name, ty):
+        """Declared type of a local (needed for empty containers and locals that start as None)."""
+        self.__dict__.setdefault("locals_", {})[name] = ty
         return self
 
     def returns(self, ty):
@@ -200,8 +220,9 @@ def contract(qual, prop, mode="int", variant=None):
     return deco
 
 
-def classmodel(name, fields, real=None, invariants=(), props=None):
+def classmodel(name, fields, real=None, invariants=(), props=None, assumed=()):
     cm = ClassModel(name, fields, real, invariants)
+    cm.assumed = list(assumed)
     if props:
         cm.props.update(props)
     return cm
